@@ -30,7 +30,7 @@ def run_one(m, props, tier, procs):
             src = src.replace(old, new, cnt if cnt else -1)
         open(path, "w", encoding="utf-8").write(src)
         for p in props:
-            env = dict(os.environ, VERIF_REPO=scratch, VERIF_OUT=scratch, VERIF_PROCS=str(procs))
+            env = dict(os.environ, VERIF_REPO=scratch, VERIF_OUT=scratch, VERIF_PROCS=str(procs), VERIF_NOSHRINK="1")
             t0 = time.time()
             pr = subprocess.run([os.path.join(ROOT, "check"), p, "--tier", tier], capture_output=True, text=True, env=env)
             keys = [l.split("key=", 1)[1].split(":", 1)[0] + ":" + l.split("key=", 1)[1].split(" ", 1)[0].split(":", 1)[1].rstrip(":")
